@@ -86,9 +86,37 @@ def make_op(kind, encoding, errors):
     return (kind, norm, errors, encoding)
 
 
+def expand_star(args, what):
+    """Positional arguments with `*<literal tuple / list>` spliced in (f(*('latin-1', 'backslashreplace')) is f('latin-1',
+    'backslashreplace')); star-args of anything that is not a literal sequence are not understood."""
+    out = []
+    for a in args:
+        if not (isinstance(a, tuple) and a and a[0] == 'star'):
+            out.append(a)
+            continue
+        inner = a[1]
+        while isinstance(inner, tuple) and inner and inner[0] == 'res':
+            inner = inner[3]
+        if inner[0] in ('tuple', 'list') and not any(e[0] == 'star' for e in inner[1]):
+            out.extend(inner[1])
+        elif is_const(inner) and isinstance(inner[1], (tuple, list)):
+            out.extend(('const', x) for x in inner[1])
+        else:
+            if RESOLVE[0] is not None:
+                try:
+                    v = RESOLVE[0](inner)
+                except Exception:
+                    v = None
+                if isinstance(v, (tuple, list)):
+                    out.extend(('const', x) for x in v)
+                    continue
+            raise AnalysisError('{}: star-arguments are not a literal sequence: {}'.format(what, show(a)))
+    return out
+
+
 def _args(args, kwargs, what):
     enc, err = 'utf-8', 'strict'
-    pos = list(args)
+    pos = expand_star(args, what)
     kw = dict(kwargs)
     if len(pos) > 2 or set(kw) - {'encoding', 'errors'}:
         raise AnalysisError('{}: unexpected arguments'.format(what))
